@@ -12,6 +12,7 @@ import (
 	"context"
 	"crypto/ed25519"
 	"crypto/tls"
+	"encoding/hex"
 	"fmt"
 	"math/rand"
 	"net"
@@ -102,7 +103,13 @@ func runChunksThroughListener(c *engine.Ctx) {
 	defer lw.Close()
 	rng := rand.New(rand.NewSource(c.Rng("chunks-listener").Int63()))
 	ap, fp := nodeenrollment.AuthenticateNodeNextProtoV1Prefix, nodeenrollment.FetchNodeCredsNextProtoV1Prefix
-	pref := world.CertPref(roots.Current.Id)
+	// the preference names the root (by key ID) that issued the chain the client presents
+	curID, err := nodeenrollment.KeyIdFromPkix(roots.Current.PublicKeyPkix)
+	if err != nil {
+		r.Broken("chunks listener: key ID of the current root: " + err.Error())
+		return
+	}
+	pref := world.CertPref(curID)
 	b := node.Creds.CertificateBundles[0]
 	cert := &tls.Certificate{Certificate: [][]byte{b.CertificateDer, b.CaCertificateDer}, PrivateKey: node.K.Priv}
 
@@ -116,6 +123,7 @@ func runChunksThroughListener(c *engine.Ctx) {
 			}
 		}
 	}
+	layoutSeq := 0
 	for _, lo := range layouts {
 		var chunks []string
 		var sentGen *types.GenerateServerCertificatesRequest
@@ -127,6 +135,12 @@ func runChunksThroughListener(c *engine.Ctx) {
 			if lo.PadBytes > 0 {
 				// client state is opaque bytes to the splitting; the library verifies its signature and parses it only afterwards
 				sentGen.ClientState = world.RandBytes(lo.PadBytes)
+				if layoutSeq++; layoutSeq%2 == 0 {
+					// a state the library can also decode afterwards, so that the handshake completes and the
+					// connection reports the list it was offered
+					st, _ := structpb.NewStruct(map[string]any{"pad": hex.EncodeToString(world.RandBytes(lo.PadBytes / 2))})
+					sentGen.ClientState, _ = proto.Marshal(st)
+				}
 				sentGen.ClientStateSignature = ed25519.Sign(node.K.Priv, sentGen.ClientState)
 			}
 			chunks = world.AuthProtos(sentGen)
@@ -228,6 +242,23 @@ func runChunksThroughListener(c *engine.Ctx) {
 			default:
 				r.Count("listener_recombined_equal:auth", 1)
 			}
+			// an application that recombines the request from the list the connection reports gets the same
+			// payload as from the list that was sent
+			if pc, ok := rec.Conn.(*protocol.Conn); ok && rec.Returned {
+				want, werr := nodetls.CombineFromNextProtos(ap, list)
+				got, gerr := nodetls.CombineFromNextProtos(ap, pc.ClientNextProtos())
+				switch {
+				case werr != nil:
+					r.Broken("chunks listener: the offered list does not recombine: " + werr.Error())
+				case gerr != nil || got != want:
+					r.Violation("recombination-from-reported-list-differs", fmt.Sprintf("recombining the %d entries under the authentication prefix from the list the connection reports does not give the payload that was split (preference %s, unrelated %s; error %v)", lo.Chunks, lo.Pref, lo.Foreign, gerr), wit)
+				default:
+					r.Count("reported_list_recombines_equal", 1)
+					if lo.Chunks > 1 {
+						r.Count("reported_list_recombines_equal:several_entries", 1)
+					}
+				}
+			}
 		default:
 			switch {
 			case len(gf) == 0:
@@ -246,7 +277,16 @@ func runChunksThroughListener(c *engine.Ctx) {
 	for _, size := range []int{16, 4000, 16000, 22000, 30000, 40000} {
 		st, _ := structpb.NewStruct(map[string]any{"blob": strings.Repeat("s", size-8) + fmt.Sprintf("%08d", rng.Intn(100000000))})
 		desc := fmt.Sprintf("through-listener|client-configs state %d bytes", size)
-		cfgs, cerr := nodetls.ClientConfigs(s.Ctx, node.Creds, nodeenrollment.WithState(st))
+		copts := []nodeenrollment.Option{nodeenrollment.WithState(st)}
+		if size%8000 != 0 {
+			// unrelated names the node asked to have listed next to the request, among them near misses of
+			// the library's prefixes (ALPN names are opaque byte strings: padding and case are part of the name)
+			copts = append(copts, nodeenrollment.WithExtraAlpnProtos([]string{"h2", " " + nodeenrollment.AuthenticateNodeNextProtoV1Prefix, "\t" + nodeenrollment.AuthenticateNodeNextProtoV1Prefix + "99-QUJD",
+				" " + nodeenrollment.FetchNodeCredsNextProtoV1Prefix + "00-QUJD ", strings.TrimSuffix(nodeenrollment.AuthenticateNodeNextProtoV1Prefix, "-"), strings.ToUpper(nodeenrollment.AuthenticateNodeNextProtoV1Prefix) + "00-QUJD", "my-service "}))
+			desc += " with near-miss foreign names"
+			r.Count("client_configs_with_near_miss_foreign_names", 1)
+		}
+		cfgs, cerr := nodetls.ClientConfigs(s.Ctx, node.Creds, copts...)
 		r.Eval(desc, true)
 		if cerr != nil || len(cfgs) == 0 {
 			r.Violation("client-refused-payload-that-fits", fmt.Sprintf("ClientConfigs refused an authentication request with %d bytes of state, which fits a ClientHello: %v", size, cerr), map[string]any{"state_bytes": size})
